@@ -1,6 +1,6 @@
 (* C44 — proofs. *)
 From Coq Require Import NArith List Bool Lia.
-From Dolt Require Import Base.Str Gen.RefnameTable C44.Model C44.Spec C44.Corr.
+From Dolt Require Import Base.Str Gen.RefnameTable Gen.C44SpecFuncs C44.Model C44.Spec C44.Corr.
 Import ListNotations.
 Local Open Scope N_scope.
 
@@ -433,7 +433,7 @@ Proof.
   rewrite valid_branch_name_spec, valid_tag_name_spec, valid_dataset_id_spec, !eqb_reflx.
   cbn [andb]. rewrite new_commit_spec_unfold.
   destruct (spec_grammar_split (trim_space s)) as [name anc].
-  destruct (parse_instructions anc) as [l|]; [|reflexivity].
+  destruct (parse_instructions anc) as [l|] eqn:Ep; [|reflexivity].
   unfold classify.
   destruct (beq_bytes (map to_lower name) commit_spec_head) eqn:Eh.
   { change (cs_code CsHead =? 0) with true. cbv iota.
@@ -441,7 +441,8 @@ Proof.
   destruct (looks_like_hash name) eqn:Ehash.
   { change (cs_code CsHash =? 0) with false. change (cs_code CsHash =? 1) with true. cbv iota.
     rewrite rle_eqb_refl, beq_bytes_refl. reflexivity. }
-  destruct (valid_branch_name name) eqn:Eb; [|reflexivity].
+  destruct (valid_branch_name name) eqn:Eb;
+    [| cbv iota; rewrite ?Eh, ?Ehash, <- ?valid_branch_name_spec, ?Eb; reflexivity].
   change (cs_code CsRef =? 0) with false. change (cs_code CsRef =? 1) with false. cbv iota.
   rewrite <- valid_branch_name_spec, Eb, rle_eqb_refl, beq_bytes_refl. reflexivity.
 Qed.
@@ -463,3 +464,12 @@ Example commit_spec_example :
   | SErr => SErr
   end = SOk (CsRef, [109; 97; 105; 110], [(0, 2); (1, 1)]).
 Proof. vm_compute. reflexivity. Qed.
+
+(* ------------------------------------------------------------------ *)
+(* The digit test and the merge-parent test used by parseInstructions, as
+   transcribed from the Go source on every run, are the ones the model uses. *)
+Lemma go_is_digit_pinned : forall b, go_is_digit b = is_digit b.
+Proof. intros b. reflexivity. Qed.
+
+Lemma go_is_valid_merge_spec_pinned : forall n, go_is_valid_merge_spec n = ((n =? 1) || (n =? 2)).
+Proof. intros n. reflexivity. Qed.
